@@ -86,3 +86,36 @@ Example ex11_order :
   veqb (VDict [(K "b", I 2); (K "a", I 1)]) ex11_t1 = true /\
   py_eqv (VDict [(K "b", I 2); (K "a", I 1)]) ex11_t1 = true.
 Proof. split; [vm_compute; reflexivity|]. split; [discriminate|]. split; vm_compute; reflexivity. Qed.
+
+(* ---- the tuple guard of the inversion theorems is needed: finding F4 seen through subtraction ---- *)
+(* (1, {2}) -> (1, {3}): the set inside the tuple cannot be written back; t2 - d is t2 itself and two errors are logged *)
+Definition f4s_t1 : value := VTuple [I 1; VSet [AInt 2]].
+Definition f4s_t2 : value := VTuple [I 1; VSet [AInt 3]].
+Definition f4s_d : delta := mk_d ex_cfg ex_ops f4s_t1 f4s_t2.
+Example f4s_sub : wf f4s_t1 = true /\ wf f4s_t2 = true /\ ex_sub f4s_d f4s_t2 = Some (f4s_t2, 2) /\ py_eqv f4s_t2 f4s_t1 = false.
+Proof. vm_compute. repeat split. Qed.
+
+(* ---- subtraction from a corrupted t2: {'a':[1,5,3],'b':'y','c':'7'} with root['a'][1] = 99 / root['c'] = '8' ---- *)
+Definition ex_t2_bad_val : value := VDict [(K "a", VList [I 1; I 99; I 3]); (K "b", VAtom (K "y")); (K "c", VAtom (K "7"))].
+Definition ex_t2_bad_type : value := VDict [(K "a", VList [I 1; I 5; I 3]); (K "b", VAtom (K "y")); (K "c", VAtom (K "8"))].
+Example ex_sub_detects :
+  indep_verified (reverse ex_d) = true /\
+  (exists r n, ex_sub ex_d ex_t2_bad_val = Some (r, n) /\ 0 < n) /\
+  (exists r n, ex_sub ex_d ex_t2_bad_type = Some (r, n) /\ 0 < n) /\
+  ex_sub ex_d ex_t2 = Some (ex_t1, 0).
+Proof.
+  assert (I0 : indep_verified (reverse ex_d) = true) by (vm_compute; reflexivity).
+  split; [exact I0|]. split; [|split; [|vm_compute; reflexivity]].
+  - apply (sub_detects_value ex_conv ex_ro ex_ao ex_d ex_t2_bad_val
+             (mkVC [PKey (K "a"); PKey (AInt 1)] None (Some (I 2)) (I 5))).
+    + reflexivity.
+    + unfold indep_verified in I0. apply andb_true_iff in I0 as [I0 _]. apply andb_true_iff in I0 as [I0 _]. exact I0.
+    + vm_compute. left. reflexivity.
+    + vm_compute. reflexivity.
+  - apply (sub_detects_type ex_conv ex_ro ex_ao ex_d ex_t2_bad_type
+             (mkTC [PKey (K "c")] None TInt TStr (Some (I 7)) (Some (VAtom (K "7"))))).
+    + reflexivity.
+    + exact I0.
+    + vm_compute. left. reflexivity.
+    + vm_compute. reflexivity.
+Qed.
